@@ -1,0 +1,90 @@
+//go:build verif
+
+// Contracts (w-c19) for the rel functions that pkg/arrai/out.go and pkg/test call directly. Comments only.
+package rel
+
+//@ func (EmptySet).IsTrue(e)
+//@   tags C10
+//@   pure
+//@   ensures[C19] refines: result == istrue(box(e))
+
+//@ func (TrueSet).IsTrue(e)
+//@   tags C10
+//@   pure
+//@   ensures[C20] refines: result == istrue(box(e))
+
+//@ func AsDict(v)
+//@   tags C10
+//@   pure
+//@   ensures result.1 == (v is Dict || v is EmptySet)
+
+//@ func (Bytes).Bytes(b)
+//@   tags C10
+//@   pure
+//@   ensures result == b.b
+
+//@ func (Dict).DictEnumerator(d)
+//@   tags C10
+//@   assigns fresh-only
+//@   ensures result != nil
+
+//@ func (*DictEnumerator).MoveNext(a)
+//@   tags C10
+//@   requires a != nil
+//@   assigns fresh-only
+//@   modifies rel.DictEnumerator
+
+// Current is instrumented with the ghost assignment fspending := true (an entry has been produced and
+// must be handed to a handler, see 70_fs.spec).
+//@ func (*DictEnumerator).Current(a)
+//@   tags C10, C19
+//@   assigns fresh-only
+//@   modifies rel.DictEnumerator, fspending
+//@   ghostentry fspending := true
+//@   requires a != nil
+//@   ensures fspending
+
+// (String).String: contract in verif_contracts_c06.go
+
+//@ func (Bytes).String(b)
+//@   tags C10
+//@   assigns nothing
+
+// ---- used by pkg/test (C20) -------------------------------------------------------------------------------
+//@ globalfact EmptyTuple EmptyTuple == emptyTupleVal
+
+// (Array).Values: contract in verif_contracts.go
+
+//@ func (DictEntryTuple).Get(t; name)
+//@   tags C10
+//@   pure
+//@   ensures result.1 == (name == "@" || name == "@value")
+//@   ensures name == "@" ==> result.0 == t.at
+//@   ensures name == "@value" ==> result.0 == t.value
+
+//@ func (DictEntryTuple).MustGet(t; name)
+//@   tags C10
+//@   assigns fresh-only
+//@   requires name == "@" || name == "@value"
+//@   ensures result == (name == "@" ? t.at : t.value)
+
+// TRUSTED: the entries of a Dict have non-nil key and value (construction invariant of Dict, kept by the frozen
+// map; not proved here). The body enumerates a frozen map and sorts.
+//@ func (Dict).OrderedEntries(d)
+//@   trusted
+//@   assigns fresh-only
+//@   ensures forall i in 0..len(result) :: result[i].at != nil && result[i].value != nil
+
+// TRUSTED definitions: gcount / ghas ARE the results of GenericSet.Count / Has (bodies delegate to frozen.Set)
+//@ func (GenericSet).Count(s)
+//@   trusted
+//@   pure
+//@   ensures result == gcount(box(s))
+//@ func (GenericSet).Has(s; v)
+//@   trusted
+//@   pure
+//@   ensures result == ghas(box(s), v)
+
+//@ func ValueTypeAsString(v)
+//@   tags C10
+//@   assigns fresh-only
